@@ -549,6 +549,39 @@ pub fn query(g: &G, t: &mut Toks, o: &mut Out) {
                 snapshot_k(&h, o, 1000);
             }
         }
+        // ---- C03's "consequently" clause: what the weighted algorithms report for the graph this history
+        // produced (oracle-only observations, kinds 50xx: recomputed in Python from get_all_edges alone) ----
+        "alg_sssp" => {
+            let (x, w) = (t.i(), t.i() != 0);
+            let f = if w { wfactor() } else { 1.0 };
+            let r = guard(|| graphrs::algorithms::shortest_path::dijkstra::single_source(g, w, x, None, None, false, false));
+            o.obs(5001, &[vec![res_code(&r)]], &[]);
+            if let Some(Ok(m)) = r {
+                let mut kv: Vec<(i64, f64)> = m.iter().map(|(k, i)| (*k, i.distance / f)).collect();
+                kv.sort_by(|a, b| a.0.cmp(&b.0));
+                let rows: Vec<Vec<i64>> = kv.iter().map(|(k, _)| vec![*k]).collect();
+                let fl: Vec<f64> = kv.iter().map(|(_, v)| *v).collect();
+                o.obs(5040, &rows, &fl);
+            }
+        }
+        "alg_cc" | "alg_bc" => {
+            let w = t.i() != 0;
+            let r = if q == "alg_cc" {
+                guard(|| graphrs::algorithms::centrality::closeness::closeness_centrality(g, w, false))
+            } else {
+                guard(|| graphrs::algorithms::centrality::betweenness::betweenness_centrality(g, w, false))
+            };
+            o.obs(5001, &[vec![res_code(&r)]], &[]);
+            if let Some(Ok(m)) = r {
+                // weighted closeness carries 1/scale, betweenness is scale free (obs::WSCALE)
+                let f = if w && q == "alg_cc" { wfactor() } else { 1.0 };
+                let mut kv: Vec<(i64, f64)> = m.iter().map(|(k, v)| (*k, *v * f)).collect();
+                kv.sort_by(|a, b| a.0.cmp(&b.0));
+                let rows: Vec<Vec<i64>> = kv.iter().map(|(k, _)| vec![*k]).collect();
+                let fl: Vec<f64> = kv.iter().map(|(_, v)| *v).collect();
+                o.obs(if q == "alg_cc" { 5060 } else { 5050 }, &rows, &fl);
+            }
+        }
         _ => {
             eprintln!("unknown query {}", q);
             std::process::exit(2);
